@@ -1226,7 +1226,15 @@ def is_protein_group(parameters, atom: Atom) -> Optional[Group]:
         return None
     # Check for termial groups
     if atom.terminal == 'N+':
-        return NtermGroup(atom)
+        # not a free amino group if the nitrogen is peptide-bonded to the
+        # carbonyl carbon of a preceding (e.g. HETATM / modified) residue
+        if any(b.name == 'C' and b.element == 'C'
+               and (b.chain_id, b.res_num, b.icode)
+               != (atom.chain_id, atom.res_num, atom.icode)
+               for b in atom.bonded_atoms):
+            atom.terminal = None
+        else:
+            return NtermGroup(atom)
     elif atom.terminal == 'C-':
         return CtermGroup(atom)
     # Backbone
